@@ -23,7 +23,7 @@ typedef struct { int ret, finished, stalled, need_dict; size_t outlen, consumed;
 typedef struct { uint32_t ain, aout, cons, prod; uint8_t sb, sa; int8_t ret; } ievent;
 #define MAXEV 4000
 static ievent ev[MAXEV]; static int nev;
-static long st_tail; static long st_streams, st_decodes, st_calls, st_deep, st_kind[3], st_false_ok_checked, st_stricter, st_benign_ok, st_resume[16], st_modes[8], st_retcodes[16], st_trailer_straddle, st_detect[4], st_needdict;
+static long st_tail, st_near_end, st_prefixed; static long st_streams, st_decodes, st_calls, st_deep, st_kind[3], st_false_ok_checked, st_stricter, st_benign_ok, st_resume[16], st_modes[8], st_retcodes[16], st_trailer_straddle, st_detect[4], st_needdict;
 static long st_fault_fired[DGF_NFAULTS], st_fault_class_ok[DGF_NFAULTS], st_blockpairs[3][3];
 
 static void evtext(char *b, size_t cap) { size_t o = 0; int from = nev > 30 ? nev - 30 : 0; o += snprintf(b + o, cap - o, "calls=%d last:", nev); for (int i = from; i < nev && o + 50 < cap; i++) o += snprintf(b + o, cap - o, " [in%u out%u ->c%u p%u s%u>%u r%d]", ev[i].ain, ev[i].aout, ev[i].cons, ev[i].prod, ev[i].sb, ev[i].sa, ev[i].ret); }
@@ -76,8 +76,13 @@ static int gen_valid(vrng *r, vstream *v, int want_src, int fault)
 	if (want_src == 0) {           /* grammar generated */
 		defgen_t g; memset(&g, 0, sizeof g); g.fault = fault; g.max_blocks = vrn(r, 6) == 0 ? 12 : 5; g.want_deep = vrn(r, 3) == 0; g.want_far = vrn(r, 4) == 0;
 		size_t cap = fault ? 20000 : vrn(r, 6) == 0 ? 400000 : 60000;
-		size_t bl = defgen(&g, r, tmpin, SMAX - 70000, expb, cap);
+		size_t pre_bytes = 0, pre_out = 0;
+		if (!fault && vrn(r, 8) == 0) {   /* 64 KiB and a bit of stored data first: what follows is decoded after the decoder has switched to writing directly into the caller's buffer; the rest is short and ends in a small last block */
+			pre_out = 65536 + vrn(r, 3000); vr_fill(r, expb, pre_out); size_t done = 0; while (done < pre_out) { size_t l = pre_out - done > 65535 ? 65535 : pre_out - done; uint8_t *q = tmpin + pre_bytes; q[0] = 0; q[1] = (uint8_t) l; q[2] = (uint8_t) (l >> 8); q[3] = (uint8_t) ~l; q[4] = (uint8_t) (~l >> 8); memcpy(q + 5, expb + done, l); pre_bytes += 5 + l; done += l; }
+			cap = 1 + vrn(r, 3000); g.max_blocks = 1 + vrn(r, 2); st_prefixed++; }
+		size_t bl = defgen(&g, r, tmpin + pre_bytes, SMAX - 70000 - pre_bytes, expb + pre_out, cap);
 		if (!bl) return -1;
+		bl += pre_bytes; g.explen += pre_out;
 		v->elen = g.explen; v->deep = g.deep;
 		if (g.deep) st_deep++;
 		if (fault) { v->wrapper = RW_RAW; v->elen = g.valid_out_before_fault; }
@@ -130,7 +135,8 @@ static int run_streaming(int mode, const uint8_t *in, size_t inlen, vrng *r, int
 {
 	struct inflate_state *s = (struct inflate_state *) gs_place(s_st, sizeof *s, vrn(r, 2) ? G_START : G_NEAR_END, 0);
 	vr_fill(r, s, 4096); memset(res, 0, sizeof *res); nev = 0; g_shape = NULL;
-	if (V_TRY(20)) { isal_inflate_init(s); s->crc_flag = mode; s->hist_bits = hist_bits; V_END; } else { fault_key("isal_inflate_init"); return 1; }
+	if (vrn(r, 2)) s->hist_bits = 1 + vrn(r, 14);   /* a struct used before with a reduced window: isal_inflate_init() restores the default */
+	if (V_TRY(20)) { isal_inflate_init(s); s->crc_flag = mode; if (hist_bits) s->hist_bits = hist_bits; V_END; } else { fault_key("isal_inflate_init"); return 1; }
 	if (dict && !(mode == ISAL_ZLIB)) { uint8_t *dd = gs_place(s_dict, dictlen, G_END, 0); memcpy(dd, dict, dictlen); int rc = isal_inflate_set_dict(s, dd, (uint32_t) dictlen); if (rc) { viol_ev("set_dict-refused", "isal_inflate_set_dict on a fresh state returned %d", rc); return 1; } }
 	if (g_pre_hdr && g_pre_hdr_len && !dict) {
 		static struct isal_gzip_header gh; static uint8_t hb[70000]; if (g_pre_hdr_len > sizeof hb) return 0; memcpy(hb, g_pre_hdr, g_pre_hdr_len);
@@ -205,11 +211,11 @@ static size_t g_sl_first, g_sl_cut; static long st_sl_retry, st_sl_trunc;
 static int run_stateless(int mode, const uint8_t *in, size_t inlen, vrng *r, size_t outcap, const uint8_t *dict, size_t dictlen, int hist_bits, dres *res)
 {
 	struct inflate_state *s = (struct inflate_state *) gs_place(s_st, sizeof *s, vrn(r, 2) ? G_START : G_NEAR_END, 0);
-	vr_fill(r, s, 4096); memset(res, 0, sizeof *res); nev = 0; g_shape = NULL;
+	vr_fill(r, s, 4096); memset(res, 0, sizeof *res); nev = 0; g_shape = NULL; if (vrn(r, 2)) s->hist_bits = 1 + vrn(r, 14);
 	uint8_t *pin = gs_place(s_in, inlen, vrn(r, 4) ? G_END : G_START, 0); memcpy(pin, in, inlen);
 	uint8_t *pout = gs_place(s_out, outcap, vrn(r, 4) ? G_END : G_START, 0); int ret;
 	if (V_TRY(30)) {
-		isal_inflate_init(s); s->crc_flag = mode; s->hist_bits = hist_bits;
+		isal_inflate_init(s); s->crc_flag = mode; if (hist_bits) s->hist_bits = hist_bits;
 		if (dict && mode != ISAL_ZLIB) { uint8_t *dd = gs_place(s_dict, dictlen, G_END, 0); memcpy(dd, dict, dictlen); isal_inflate_set_dict(s, dd, (uint32_t) dictlen); }
 		if (g_sl_cut && !dict && g_sl_cut <= inlen) { /* first a one-shot call on the same struct whose input stops inside the trailer */ s->next_in = pin; s->avail_in = (uint32_t) g_sl_cut; s->next_out = pout; s->avail_out = (uint32_t) outcap; int r0 = isal_inflate_stateless(s); if (r0 == ISAL_END_INPUT) st_sl_trunc++; s->crc_flag = mode; }
 		if (g_sl_first && !dict && g_sl_first - 1 <= outcap) { s->next_in = pin; s->avail_in = (uint32_t) inlen; s->next_out = pout; s->avail_out = (uint32_t) (g_sl_first - 1); int r0 = isal_inflate_stateless(s); if (r0 == ISAL_OUT_OVERFLOW) st_sl_retry++; s->crc_flag = mode; }
@@ -337,6 +343,8 @@ static void valid_case(long idx, vrng *r, const char *lvl, int systematic)
 		g_pre_hdr = (mode == ISAL_GZIP_NO_HDR || mode == ISAL_GZIP_NO_HDR_VER) && vrn(r, 2) ? strm : NULL; g_pre_hdr_len = v.hdr_len;
 		{ int bad = run_streaming(mode, in, inlen, r, ik, ok, vrn(r, 2), -1, -1, dict, v.dictlen, 0, 0, &d); g_pre_hdr = NULL; if (bad) return; } judge(mode, in, inlen, &rv, &d, 1, "stream-sched", 0);
 		if (in == strm + offs[mi] && inlen > 12 && mode_verifies(mode)) { /* cut inside the trailer */ long sp = (long) (inlen - tail) - 1 - (long) vrn(r, 12); if (run_streaming(mode, in, inlen, r, 0, NOCH - 1, 1, sp, -1, dict, v.dictlen, 0, 0, &d)) return; judge(mode, in, inlen, &rv, &d, 1, "stream-trailer-split", 0); st_trailer_straddle++; }
+		if (v.elen > 65536 && v.elen + 8 < CHMAX - 64 && !v.dictlen) {   /* beyond 64 KiB the decoder writes straight into the caller's buffer: the first output buffer ends 1..3 bytes before the end of the data */
+			for (long k = 1; k <= 3; k++) { if (run_streaming(mode, in, inlen, r, NICH - 1, 0, 0, -1, (long) v.elen - k, dict, v.dictlen, 0, 0, &d)) return; judge(mode, in, inlen, &rv, &d, 1, "split-out-near-end", 0); } st_near_end++; }
 		if (systematic && inlen <= 700 && v.elen <= 3000) {   /* every single split point of input and of output */
 			for (long sp = 0; sp <= (long) inlen; sp++) { if (run_streaming(mode, in, inlen, r, 0, NOCH - 1, sp & 1, sp, -1, dict, v.dictlen, 0, 0, &d)) return; judge(mode, in, inlen, &rv, &d, 1, "split-in", 0); }
 			for (long sp = 0; sp <= (long) v.elen && sp < 800; sp++) { if (run_streaming(mode, in, inlen, r, NICH - 1, 0, 0, -1, sp, dict, v.dictlen, 0, 0, &d)) return; judge(mode, in, inlen, &rv, &d, 1, "split-out", 0); }
@@ -468,7 +476,7 @@ int main(int argc, char **argv)
 		}
 	}
 	v_stat("evaluations", st_decodes); v_stat("streams", st_streams); v_stat("library_calls", st_calls); v_stat("streams_with_codes_13plus", st_deep); v_stat("finished_results_checked_against_reference", st_false_ok_checked);
-	v_stat("rejected_but_reference_lenient", st_stricter); v_stat("mutants_still_valid_and_accepted", st_benign_ok); v_stat("trailer_straddling_histories", st_trailer_straddle); v_stat("need_dict_flows", st_needdict); v_stat("valid_streams_followed_by_foreign_bytes", st_tail); v_stat("stateless_retries_on_the_same_struct_after_overflow", st_sl_retry); v_stat("streams_whose_gzip_header_the_caller_parsed_with_the_reader_first", st_pre_hdr); v_stat("stateless_calls_on_a_struct_whose_previous_call_ended_inside_the_trailer", st_sl_trunc);
+	v_stat("rejected_but_reference_lenient", st_stricter); v_stat("mutants_still_valid_and_accepted", st_benign_ok); v_stat("trailer_straddling_histories", st_trailer_straddle); v_stat("need_dict_flows", st_needdict); v_stat("valid_streams_followed_by_foreign_bytes", st_tail); v_stat("generated_streams_that_start_with_64KiB_of_stored_data", st_prefixed); v_stat("streams_over_64KiB_with_the_first_output_buffer_ending_1_to_3_bytes_early", st_near_end); v_stat("stateless_retries_on_the_same_struct_after_overflow", st_sl_retry); v_stat("streams_whose_gzip_header_the_caller_parsed_with_the_reader_first", st_pre_hdr); v_stat("stateless_calls_on_a_struct_whose_previous_call_ended_inside_the_trailer", st_sl_trunc);
 	v_stat("inflate_dict_calls_refused", st_dict_refused);
 	v_count("stream_source", "grammar", st_kind[0]); v_count("stream_source", "zlib", st_kind[1]); v_count("stream_source", "isal", st_kind[2]);
 	v_count("flip_region", "header", st_detect[0]); v_count("flip_region", "body", st_detect[1]); v_count("flip_region", "trailer", st_detect[2]);
